@@ -260,8 +260,9 @@ where
                 continue;
             },
             // panics are C05's concern
-            Err(_) => {
+            Err(p) => {
                 stats::count("outcome.decode_panic", 1);
+                stats::count(&format!("decode_panic_site.{}", p.site()), 1);
                 continue;
             },
         };
@@ -277,8 +278,9 @@ where
                 stats::count("outcome.rejected", 1);
                 continue;
             },
-            Err(_) => {
+            Err(p) => {
                 stats::count("outcome.verify_panic", 1);
+                stats::count(&format!("verify_panic_site.{}", p.site()), 1);
                 continue;
             },
         }
